@@ -303,50 +303,8 @@ impl<'a> Runner<'a> {
     }
 }
 
-/// A short construct-specific descriptor of a failure that is not tied to an inserted comment.
 fn failure_tag(f: &Failure) -> String {
-    let ident_before = |s: &str| -> String {
-        // the last identifier-like word of `s`
-        let t: String = s.chars().rev().skip_while(|c| !c.is_alphabetic()).take_while(|c| c.is_alphanumeric() || *c == '_').collect();
-        t.chars().rev().collect()
-    };
-    match f.kind.as_str() {
-        "output-does-not-parse" | "refused" => {
-            match f.detail.find("Unexpected token: ") {
-                Some(i) => {
-                    let w: String = f.detail[i + 18..].chars().take_while(|c| c.is_alphanumeric()).collect();
-                    format!("unexpected-{}", w)
-                }
-                None => {
-                    if f.detail.contains("Unexpected end of file") { "unexpected-eof".into() } else { "other".into() }
-                }
-            }
-        }
-        "ast-changed" => {
-            // detail = "…<a> ≠ …<b>": both excerpts start 60 chars before the first difference
-            let mut it = f.detail.split(" ≠ …");
-            let a = it.next().unwrap_or("");
-            let b = it.next().unwrap_or("");
-            let n = a.chars().zip(b.chars()).take_while(|(x, y)| x == y).count();
-            let pa: String = a.chars().take(n).collect();
-            // the last capitalised word (an AST constructor / field type) of the common part
-            let mut last = String::new();
-            let mut cur = String::new();
-            for c in pa.chars() {
-                if c.is_alphanumeric() || c == '_' {
-                    cur.push(c);
-                } else {
-                    if cur.chars().next().map_or(false, |c| c.is_uppercase()) && cur != "Spanned" && cur != "Some" && cur != "None" {
-                        last = cur.clone();
-                    }
-                    cur.clear();
-                }
-            }
-            let _ = &ident_before;
-            if last.is_empty() { "root".into() } else { last }
-        }
-        _ => "x".into(),
-    }
+    f.tag.clone()
 }
 
 /// Class of an input that fails without any inserted comment being responsible.
